@@ -360,4 +360,14 @@ example :
     (combineHeaders svc [{ name := "A-Key".toList }]).map (·.name) = ["A-Key".toList, "X-B".toList, "X-C".toList, "X-T".toList] ∧
     (combineHeaders svc []).map (·.name) = ["X-B".toList, "X-C".toList, "X-T".toList] := by decide
 
+/-- **tie**: every attribute of an emitted header-table entry is printed from ITS OWN getter of the declaration — in
+particular `Required` from `GetRequired()` alone: no other attribute of the declaration (`deprecated`, an example, a
+description) takes part in whether the server asks for the header (regenerated from `generateHeaderLiteral`; seed
+C09-r8-1 wrote `Required: false` for deprecated headers). -/
+theorem header_literal_transcribed :
+    Gen.Pipeline.headerLiteral = [("Name", "header.GetName()"), ("Description", "header.GetDescription()"),
+      ("Type", "header.GetType()"), ("Required", "strconv.FormatBool(header.GetRequired())"),
+      ("Format", "header.GetFormat()"), ("Example", "header.GetExample()"),
+      ("Deprecated", "strconv.FormatBool(header.GetDeprecated())")] := by decide
+
 end Sebuf.C09
